@@ -104,6 +104,74 @@ def script(name, **kw):
     SCRIPT[name] = d
 
 
+# ---------------------------------------------------------------- line-granular interrupts (sys.settrace)
+# A KeyboardInterrupt can arrive at any line.  For the functions of field_wrap_BH.py that take part in
+# a field computation, every executed line is a possible crash point - except lines inside `finally:`
+# and `except` bodies (recovery code: no double faults).
+import ast
+import sys
+
+TRACE_FILE_SUFFIX = "fields/field_wrap_BH.py"
+TRACE_FUNCS = ("getBH_level2", "getBH_level1", "get_src_dict", "tile_group_property", "getBH_dict_level2")
+LINES = []  # (func, lineno) recorded in execution order when RECORD is on
+ARMED_LINE = [None]  # (func, lineno)
+_RECOVERY = {}  # filename -> set of line numbers inside finally / except bodies
+
+
+def _recovery_lines(filename):
+    r = _RECOVERY.get(filename)
+    if r is None:
+        r = set()
+        try:
+            tree = ast.parse(open(filename).read())
+            for node in ast.walk(tree):
+                if isinstance(node, ast.Try):
+                    for part in list(node.finalbody) + [h for h in node.handlers]:
+                        for sub in ast.walk(part):
+                            if hasattr(sub, "lineno"):
+                                r.update(range(sub.lineno, getattr(sub, "end_lineno", sub.lineno) + 1))
+        except (OSError, SyntaxError):
+            pass
+        _RECOVERY[filename] = r
+    return r
+
+
+def _local_tracer(frame, event, arg):
+    if event == "line":
+        code = frame.f_code
+        key = (code.co_name, frame.f_lineno)
+        if frame.f_lineno in _recovery_lines(code.co_filename):
+            return _local_tracer
+        if RECORD[0]:
+            LINES.append(key)
+        a = ARMED_LINE[0]
+        if a is not None and a == key:
+            ARMED_LINE[0] = None
+            FIRED.append(("line", key))
+            raise SimInterrupt(f"{key[0]}:{key[1]}")
+    return _local_tracer
+
+
+def _global_tracer(frame, event, arg):
+    code = frame.f_code
+    if code.co_name in TRACE_FUNCS and code.co_filename.endswith(TRACE_FILE_SUFFIX):
+        return _local_tracer
+    return None
+
+
+class trace_lines:
+    """context manager: line events of the traced functions are recorded and/or used as crash points"""
+
+    def __enter__(self):
+        self._old = sys.gettrace()
+        sys.settrace(_global_tracer)
+        return self
+
+    def __exit__(self, *exc):
+        sys.settrace(self._old)
+        return False
+
+
 # ---------------------------------------------------------------- fault points in getBH_level2
 HITS = []  # (site, key) recorded when RECORD is on
 ARMED = [None]  # {"site":..., "key":..., "flavour": "mem"|"int"}
@@ -167,5 +235,7 @@ def reset():
     FIRED.clear()
     RECORD[0] = False
     ARMED[0] = None
+    ARMED_LINE[0] = None
+    LINES.clear()
     INDEX_OF[0] = None
     ORDER[0] = 0
